@@ -914,8 +914,10 @@ pub fn check_echo(
         }
     }
     // datum integer of Rec { a: q, .. }
+    // outputs line up with the template only when none is optional and no publish output is appended
     let live: Vec<&OutputSpec> = tx.outputs.iter().collect();
-    if live.len() == d.outputs.len() {
+    let aligned = !tx.outputs.iter().any(|o| o.optional) && !tx.directives.iter().any(|x| matches!(x, Directive::Publish { .. }));
+    if aligned && live.len() == d.outputs.len() {
         for (spec, o) in live.iter().zip(d.outputs.iter()) {
             if let Some(DatumSpec::Rec(q)) | Some(DatumSpec::Spread(q, _)) = &spec.datum {
                 if let Some(v) = q_val(q, args) {
